@@ -23,6 +23,8 @@ LIMITERS = {
     'slope': {'dt_slope_min': 0.5, 'dt_slope_max': 1.5},
     'rel_min_slope': {'dt_rel_min_slope': 0.85},
     'all': {'dt_min': 0.06, 'dt_max': 0.2, 'dt_slope_min': 0.5, 'dt_slope_max': 1.5},
+    # slope limits that lie inside the band in which small changes are ignored: the rules meet
+    'slope_in_band': {'dt_slope_min': 0.5, 'dt_slope_max': 1.5, 'dt_rel_min_slope': 0.6},
 }
 
 
@@ -115,7 +117,7 @@ def run(rep, tier):
     else:
         # sized so that the whole tier is a few hundred thousand executions (about half an hour on 16 cores)
         plan.append(('estimates (first four letters), config ball radius 2, <=2 deviations', [to_cfg(c, est_n=4) for c in ball(2)], 2))
-        plan.append(('estimates (all six letters), config ball radius 1 incl. P=4, <=2 deviations', [to_cfg(c) for c in ball(1, Ps=(1, 2, 3, 4))], 2))
+        plan.append(('estimates (all six letters), config ball radius 1 incl. P=4, <=2 deviations', [to_cfg(c) for c in ball(1, Ps=(1, 2, 3, 4)) if c['limiter'] != 'rel_min_slope'], 2))  # with that limiter a 100x rejection is followed by ~1500 tiny steps (growth below the relative threshold is ignored): covered with the four-letter alphabet only
         pairs = [dict(ball(0)[0], from_first=ff, limiter=lim) for ff in (False, True) for lim in LIMITERS]
         plan.append(('restart mode x limiter x order in which the user lists the controllers (pairwise), P=3, <=2 deviations', [to_cfg(c, est_n=4, restarting_first=rf) for c in pairs for rf in (False, True)], 2))
         plan.append(('estimates (first four letters), controllers listed in the other order, config ball radius 1, <=2 deviations', [to_cfg(c, est_n=4, restarting_first=True) for c in ball(1)], 2))
